@@ -203,9 +203,48 @@ Theorem C08_total_other_fixed : forall fx e r,
 Proof. exact other_requests_total_fixed. Qed.
 Print Assumptions C08_total_other_fixed.
 
-(** GET /livesim2: PARTIAL.  Proved per component, each under the guard of its site; what is
-    missing is the composition over [live_handler] (status_loop, time_subs_media, chunked_tail,
-    live_mpd are not yet composed), see meta/C08.json. *)
+(** GET /livesim2, composed over the whole handler (cfgFromRequest, livesimHandlerFunc, the
+    traffic gate, writeSegment, LiveMPD): on a tree with the repairs named in the premises, for
+    well-formed assets, NO request panics or hangs, provided it satisfies [G_live]: segments written
+    in one piece (no chunkdur_), no statuscode_ and no traffic_ patterns, a cue duration whose
+    float ceiling is positive, no timeoffset_, times far from the int64 limits, and a content part
+    that is not itself the path of an asset.  Everything else the proof needs (tsbd and StartNr not
+    nil and in range, periods in 1..3600, start <= stop, the parser cannot panic) is established by
+    the parser inside the proof.  PARTIAL in exactly these exclusions: the chunked writer (its
+    sleep is still unbounded, C08_refuted_current_chunk_sleep), status_loop and the traffic gate
+    are proved as components but not composed. *)
+Theorem C08_total_guarded_live : forall fx e path nowArg uq,
+  fx_stoprel fx = true -> fx_annexI fx = true -> fx_periods fx = true -> fx_snr fx = true ->
+  fx_drm fx = true -> fx_subs_startnr fx = true -> fx_stop_order fx = true ->
+  Forall wf_asset (e_assets e) ->
+  (forall now c, atoi nowArg = Some now -> process_url_cfg fx path now = Ok c -> G_live e now c) ->
+  is_bad (live_handler fx e path nowArg uq) = false.
+Proof. exact live_handler_total. Qed.
+Print Assumptions C08_total_guarded_live.
+
+(** its two halves, usable on their own *)
+Theorem C08_total_guarded_mpd : forall fx e a c mpdName nowMS tsbd,
+  c_tsbd c = Some tsbd -> 0 <= tsbd <= 172800 -> a_loopMS a <> 0 -> a_segDurMS a <> 0 ->
+  match c_pph c with Some n => 1 <= n <= 3600 | None => True end ->
+  small (c_startS c * 1000) -> small nowMS -> c_startS c * 1000 <= nowMS ->
+  match c_stopS c with Some st => c_startS c <= st /\ small (st * 1000) | None => True end ->
+  is_bad (live_mpd fx e a c mpdName nowMS) = false.
+Proof. exact live_mpd_safe. Qed.
+Print Assumptions C08_total_guarded_mpd.
+
+Theorem C08_total_guarded_segment : forall fx e a c sp now,
+  wf_asset a -> c_tsbd c <> None -> snr_ok c -> drm_ok fx e c -> cue_ok c ->
+  fx_subs_startnr fx = true -> c_complete c = true -> c_codes c = [] ->
+  is_bad (write_segment fx e a c sp now) = false.
+Proof. exact write_segment_safe. Qed.
+Print Assumptions C08_total_guarded_segment.
+
+(** the hypotheses are satisfiable: a concrete environment and request *)
+Example C08_total_guarded_live_example :
+  is_bad (live_handler all_fixed envW "/livesim2/tsbd_30/periods_60/snr_7/timesubsstpp_en/a/V/45.m4s" "100000" []) = false.
+Proof. exact live_handler_total_applies. Qed.
+
+(** The components that are not yet composed (and the ones used above). *)
 Theorem C08_total_guarded_partial_seg_index : forall r loopMS c nr now,
   r_segs r <> [] -> c_tsbd c <> None -> 0 <= nr - start_nr c < two63 ->
   hm_bad (seg_meta_from_nr r loopMS c nr now) = false.
